@@ -1,1 +1,15 @@
 import Cutadapt.Properties.C05
+#print axioms Cutadapt.C05.run_is_concat
+#print axioms Cutadapt.C05.paired_writes_carry_both_mates
+#print axioms Cutadapt.C05.pair_is_a_unit
+#print axioms Cutadapt.C05.files_in_step
+#print axioms Cutadapt.C05.pair_decision
+#print axioms Cutadapt.C05.pair_decision_short_circuit
+#print axioms Cutadapt.C05.pair_decision_one_sided
+#print axioms Cutadapt.C05.lengthPreds_one_sided
+#print axioms Cutadapt.C05.one_sided_length_bound
+#print axioms Cutadapt.C05.untrimmed_filter_forced_both
+#print axioms Cutadapt.C05.bestPairGo_same_rank
+#print axioms Cutadapt.C05.bestPairGo_is_argmax
+#print axioms Cutadapt.C05.pair_adapters_both_or_neither
+#print axioms Cutadapt.C05.pair_adapters_trim
